@@ -9,6 +9,8 @@ import WindVerif.Drv.LineFile
 import WindVerif.Drv.Records
 import WindVerif.Drv.TmpPool
 import WindVerif.Drv.Pool
+import WindVerif.Drv.FMap
+import WindVerif.Drv.Storage
 open WindVerif.Drv
 
 def machines : List (String × Machine) := [
@@ -26,7 +28,9 @@ def machines : List (String × Machine) := [
   ("linefile", linefileMachine),
   ("records", recordsMachine),
   ("tmppool", tmppoolMachine),
-  ("pool", poolMachine)
+  ("pool", poolMachine),
+  ("fmap", fmapMachine),
+  ("storage", storageMachine)
 ]
 
 def main (args : List String) : IO UInt32 := do
